@@ -258,7 +258,7 @@ def _gen_case(rng, stream):
 
 
 def gen_cases(rng, tier):
-    n_main, n_side = (44, 5) if tier == 'quick' else (440, 40)
+    n_main, n_side = (100, 8) if tier == 'quick' else (900, 60)
     cases = []
     # a fixed grid first: every layout x flatten, so that each directory shape is always exercised
     for layout in LAYOUTS:
@@ -424,8 +424,10 @@ def _read_dataset(out):
 
 
 def run_impl(case, ctx):
+    import warnings
     logging.getLogger('openmvg').setLevel(logging.CRITICAL)
     logging.getLogger('kapture').setLevel(logging.CRITICAL)
+    warnings.filterwarnings('ignore', message='.*input contained no data.*')
     from kapture.io.records import TransferAction
     from kapture.converter.openmvg.export_openmvg import export_openmvg
     from kapture.converter.openmvg.import_openmvg import import_openmvg
@@ -526,7 +528,7 @@ def oracle(case, obs):
     if not in_range(case):
         return None
     if obs['outcome'] != 'ok':
-        return f'round trip raised for an in-range dataset: {obs["outcome"]}: {obs["exc"]}'
+        return f'round trip raised for an in-range dataset: {obs["outcome"]}'
     out = obs['out']
     names = [im['name'] for im in case['images']]
     rel = _strip_common_dir(names)
@@ -535,7 +537,7 @@ def oracle(case, obs):
     out_names = [im['name'] for im in out['images']]
     out_rel = _strip_common_dir(out_names)
     if sorted(rel) != sorted(out_rel):
-        return f'set of images differs: missing={sorted(set(rel) - set(out_rel))[:3]} extra={sorted(set(out_rel) - set(rel))[:3]}'
+        return 'set of images differs (up to the common image-root prefix)'
     new_of = {}                 # original image index -> re-imported image record
     for i, r in enumerate(rel):
         new_of[i] = out['images'][out_rel.index(r)]
@@ -561,17 +563,17 @@ def oracle(case, obs):
             return 'an image lost its camera'
         c1 = _canon_cam(oc['type'], oc['params'])
         if c1 is None or any(abs(a - b) > TOL * max(Fraction(1), abs(a)) for a, b in zip(c0, c1)):
-            return f'intrinsics changed: {cams[im["cam"]][1]} -> {oc["type"]}'
+            return f'intrinsics changed for a {cams[im["cam"]][1]} camera'
         if case['cfg']['exp_action'] != 'skip' and case['cfg']['imp_action'] != 'skip':
             if out['files'].get(rec['name']) != 'image-bytes-of:' + im['name']:
                 return 'image file content not transferred to the re-imported dataset'
     pts0 = [p[:3] for p in (case['points'] or [])]
     pts1 = out['points'] or []
     if pts0 != pts1:
-        return f'3-D points differ: {len(pts0)} -> {len(pts1)} points' if len(pts0) != len(pts1) else '3-D point coordinates differ'
+        return '3-D points differ: number of points changed' if len(pts0) != len(pts1) else '3-D point coordinates differ'
     obs0 = sorted([p, newname[i], f] for p, i, f in case['obs'])
     if obs0 != out['obs']:
-        return f'observations differ: {len(obs0)} -> {len(out["obs"])}'
+        return 'observations lost after the round trip' if len(out['obs']) < len(obs0) else 'observations differ'
     def rel_of(ms):     # the matching relation, whatever the orientation a pair is stored in
         d = {}
         for a, b, pairs in ms:
@@ -583,7 +585,7 @@ def oracle(case, obs):
         return None             # a pair matched in both orientations: out of range
     m1 = rel_of(out['matches'])
     if m0 != m1:
-        return f'matches differ: pairs {sorted(m0)[:2]} vs {sorted(m1)[:2]}' if set(m0) != set(m1) else 'match index pairs differ'
+        return 'matches differ: set of matched image pairs changed' if set(m0) != set(m1) else 'match index pairs differ'
     return None
 
 
